@@ -130,6 +130,35 @@ def value_rules(R, lib, ob):
             want = (x > y) - (x < y)
             if got != want and bad is None:
                 bad = 'TimePeriod(%d).compareTo(TimePeriod(%d)) is %s, expected %d: compareTo does not order this->toSeconds() against that.toSeconds()' % (x, y, got, want)
+    # periods as the field constructor / the setters / negate() leave them: a negated zero, minutes or seconds of 60 and more;
+    # their signed length is sign * ((hour * 60 + minute) * 60 + second) all the same
+    neg = lib.fns('ace_time::TimePeriod::negate')
+    states = [(0, 0, 0, 1), (0, 0, 0, -1), (1, 0, 0, 1), (0, 60, 0, 1), (0, 59, 60, 1), (0, 59, 59, 1), (0, 0, 200, 1), (0, 3, 20, 1), (0, 2, 80, -1), (0, 3, 20, -1),
+              (1, 0, 0, -1), (0, 60, 0, -1), (0, 61, 0, -1), (2, 0, 0, 1), (1, 59, 61, 1), (0, 0, 1, -1), (0, 0, 1, 1)]
+    made = []
+    for h_, m_, s_, g_ in states:
+        o = cxx_object(lib, 'ace_time::TimePeriod')
+        o.attrs.update({'mHour': h_, 'mMinute': m_, 'mSecond': s_, 'mSign': g_})
+        made.append((o, g_ * ((h_ * 60 + m_) * 60 + s_), 'TimePeriod(%d, %d, %d, %d)' % (h_, m_, s_, g_)))
+    if neg:
+        for s_ in (0, 1, -1, 3600):
+            o = cxx_object(lib, 'ace_time::TimePeriod')
+            try:
+                call(cf, [s_], recv=o)
+                call(neg[0], [], recv=o)
+                made.append((o, -s_, 'TimePeriod(%d) negated' % s_))
+            except Raised:
+                pass
+    for ox, lx, tx in made:
+        for oy, ly, ty in made:
+            try:
+                got = call(cmpf, [oy], recv=ox)
+            except Raised as x_:
+                got = 'raises %s' % x_.what
+            n += 1
+            want = (lx > ly) - (lx < ly)
+            if got != want and bad is None:
+                bad = '%s.compareTo(%s) is %s, expected %d: the signed lengths are %d and %d seconds' % (tx, ty, got, want, lx, ly)
     R.instance('R1', cmpf.name, cmpf.loc, '%d pairs interpreted' % n)
     if bad:
         R.violation('R1', cmpf.name, cmpf.loc, bad)
